@@ -815,6 +815,8 @@ func ruleR9(c *Ctx) *RuleResult {
 				}
 			} else if o := a.reach(a.get(x)); o.onlyFresh() && len(o) > 0 && fedByOwnIterator(p, to.fn, x) {
 				stB, factsB = Discharged, "(ii) fresh map filled from the receiver's own iterator (Key(), Value())"
+			} else if o := a.reach(a.get(x)); o.onlyFresh() && len(o) > 0 && appendsValuesWalk(c, ms, to.fn) {
+				stB, factsB = Discharged, "(i'') a fresh non-nil slice grown by one append per round of the very walk Values() makes (same first node, same step, same element term)"
 			} else if o := a.reach(a.get(x)); o.onlyFresh() && len(o) > 0 && fedByNodeChain(c, ms, to.fn) {
 				stB, factsB = Discharged, "(ii') fresh map filled by walking the nodes with the very calls the own iterator's Next() makes (first node, then successor until nil), storing each node's Key and Value"
 			} else if _, isSlice := x.(*ssa.Slice); isSlice {
@@ -1137,6 +1139,93 @@ func fedByOwnIterator(p *Prog, fn *ssa.Function, x ssa.Value) bool {
 		}
 	}
 	return n > 0
+}
+
+// appendsValuesWalk: ToJSON builds the slice it marshals itself — `vs := make([]T, 0, n); for x := first; x != nil; x = step(x) {
+// vs = append(vs, elem(x)) }` — where first, step and elem are, term for term, those of the loop in the receiver's own Values()
+// (which stores elem(x) into consecutive slots). The marshalled slice is then Values() written out; it enters the loop as a
+// fresh make (non-nil, so an empty container still encodes as []).
+func appendsValuesWalk(c *Ctx, ms map[string]*ssa.Function, fn *ssa.Function) bool {
+	vals := ms["Values"]
+	if vals == nil {
+		return false
+	}
+	type walk struct{ first, step, elem string }
+	find := func(f *ssa.Function, wantAppend bool) (walk, bool) {
+		gc := c.GC(f)
+		if gc.Undecided != "" || len(gc.GCs) != 3 {
+			return walk{}, false
+		}
+		var entry, round, done *GC
+		for _, g := range gc.GCs {
+			switch {
+			case g.From == 0:
+				entry = g
+			case g.Exit.Op == "goto":
+				round = g
+			default:
+				done = g
+			}
+		}
+		if entry == nil || round == nil || done == nil || entry.Exit.Op != "goto" || len(entry.Exit.Args) != 2 || len(round.Exit.Args) != 2 || round.Exit.Leaf != entry.Exit.Leaf || len(entry.Effects) != 0 {
+			return walk{}, false
+		}
+		k := entry.Exit.Leaf
+		// the node slot: the one whose entry value is a load through the receiver and whose round guard tests it against nil
+		for j := 0; j < 2; j++ {
+			phi := "φ:" + k + "." + itoa(j)
+			other := "φ:" + k + "." + itoa(1-j)
+			if len(round.Guards) != 1 || noEpoch(round.Guards[0]) != "(!= #:nil "+phi+")" || len(done.Guards) != 1 || noEpoch(done.Guards[0]) != "(== #:nil "+phi+")" {
+				continue
+			}
+			w := walk{first: noEpoch(entry.Exit.Args[j]), step: noEpoch(round.Exit.Args[j])}
+			if wantAppend {
+				// other slot: the slice; enters as make(_, 0, _) and receives append(slice, elem)
+				in := entry.Exit.Args[1-j]
+				if !(in.Op == "makeslice" && len(in.Args) == 2 && in.Args[0].String() == "#:0") {
+					return walk{}, false
+				}
+				var app *Term
+				for _, ef := range round.Effects {
+					if ef.Op == "builtin" && ef.Leaf == "append" && len(ef.Args) == 2 && ef.Args[0].String() == other {
+						app = ef
+					}
+				}
+				if app == nil || noEpoch(round.Exit.Args[1-j]) != "(res "+noEpoch(app)+")" {
+					return walk{}, false
+				}
+				el := varargElem(round.Effects, len(round.Effects), app.Args[1])
+				if el == nil {
+					return walk{}, false
+				}
+				w.elem = noEpoch(el)
+				// and that slice is what is marshalled
+				if !done.Exit.any(func(t *Term) bool { return t.Op == "std" && t.Leaf == "encoding/json.Marshal" && len(t.Args) >= 2 && t.Args[len(t.Args)-1].String() == other }) {
+					return walk{}, false
+				}
+			} else {
+				// Values(): one slot store of elem per round
+				n := 0
+				for _, ef := range round.Effects {
+					if isStore(ef) && ef.Args[0].Op == "ia" {
+						n++
+						w.elem = noEpoch(ef.Args[1])
+					}
+				}
+				if n != 1 {
+					return walk{}, false
+				}
+			}
+			// normalise the slot number away
+			w.step = strings.ReplaceAll(w.step, phi, "φ")
+			w.elem = strings.ReplaceAll(w.elem, phi, "φ")
+			return w, true
+		}
+		return walk{}, false
+	}
+	a, ok1 := find(fn, true)
+	b, ok2 := find(vals, false)
+	return ok1 && ok2 && a == b && strings.Contains(a.first, "p:0")
 }
 
 // fedByNodeChain: ToJSON fills its map in a loop `for n := first(recv); n != nil; n = succ(n) { m[n.Key] = n.Value }` where
